@@ -1613,8 +1613,12 @@ class SymmCards():
         instances automatically if called before adding further SYMM commands via self.addSymm().
         """
         self.shx.latt.centric = value
-        self._symmcards.append(SymmetryElement(['-X', '-Y', '-Z']))
-        self._symmcards[-1].centric = True
+        inversion = SymmetryElement(['-X', '-Y', '-Z'])
+        inversion.centric = True
+        self._symmcards.append(inversion)
+        # The inversion has to be combined with the lattice centring as well:
+        for symm in self.shx.latt.latt_ops:
+            self._symmcards.append(inversion.apply_latt_symm(symm))
 
     def set_latt_ops(self, lattops: list) -> None:
         """
@@ -1623,6 +1627,11 @@ class SymmCards():
         :param lattops: list of SymmetryElement instances.
         """
         self.latt_ops = lattops
+        # The identity (always the first operator) has to be combined with the lattice centring as well:
+        for symm in lattops:
+            latt_symm = self._symmcards[0].apply_latt_symm(symm)
+            if latt_symm not in self._symmcards:
+                self._symmcards.append(latt_symm)
 
 
 class LSCycles(Command):
